@@ -36,8 +36,8 @@ package _interface
 //@   ensures storeops == old(storeops) + 1
 //@   ensures forall i string :: {i in instcleared[s]} (i in instcleared[s]) <==> old(i in instcleared[s]) || i == instance
 //@ interface (LimitStore).Load(s) props C13, C19
-//@   modifies storeops
-//@   ensures storeops == old(storeops) + 1
+//@   modifies storeops, loaderr
+//@   ensures storeops == old(storeops) + 1 && loaderr == result
 //@ interface (LimitStore).Flush(s) props C13, C19
 //@   modifies storeops
 //@   ensures storeops == old(storeops) + 1
